@@ -405,6 +405,12 @@ class Interp:
         if isinstance(op, (ast.Is, ast.IsNot)):
             if isinstance(l, Opaque) or isinstance(r, Opaque):
                 if (l is None or r is None) and not (isinstance(l, Opaque) and isinstance(r, Opaque)):
+                    import re as _re
+
+                    o = l if isinstance(l, Opaque) else r
+                    if _re.fullmatch(r"(np|numpy)\.[A-Za-z_][A-Za-z0-9_]*", o.text):
+                        # a public attribute of numpy (a dtype class, a function) is an object, never None
+                        return isinstance(op, ast.IsNot)
                     raise Undecided(f"minieval: `{norm(node)}` on an unknown value")
                 same = isinstance(l, Opaque) and isinstance(r, Opaque) and l.text == r.text
                 return same if isinstance(op, ast.Is) else not same
